@@ -42,6 +42,10 @@ def do_case(ctx, inp):
             ctx.fail("assumed-model-changed-by-a-later-call-on-the-original",
                      {"A": interp_json(A), "then": interp_json(A2), "kept_result_before": ta, "kept_result_after": snap(R1)})
             return
+    if ctx.rng.random() < 0.3:
+        # models built from this one (its negation, an implication over it) are not touched by assuming about it
+        if kin_probe(ctx, o, lambda m: m.assume(render_interp(ctx.rng, A)), "assumed", {"A": interp_json(A)}):
+            return
     rest = {n: b for n, b in lv.items() if n not in A}
     byid = {}
     for n in subs(t):
@@ -89,10 +93,36 @@ def do_case(ctx, inp):
                 return
 
 
+def negated_models_stream(ctx):
+    """models that came out of negate() / Not / Imply (the negation pushed inwards gives the children new generated ids
+    after construction), assumed about one of THOSE children by id, alone or next to leaves"""
+    for _ in range((60 if ctx.quick else 400) * (3 if ctx.search else 1)):
+        try:
+            a, o, t = gen_derived(ctx.rng, ctx.quick, vias=["negate", "Not", "Imply", "ImplyCons"])
+        except RuntimeError:
+            return
+        comps = [n for n in subs(t) if n["k"] == "node" and n is not t and n["kids"]]
+        if not comps:
+            continue
+        A = {}
+        for n_ in ctx.rng.sample(comps, min(len(comps), ctx.rng.randint(1, 2))):
+            A[n_["id"]] = (ctx.rng.choice([0, 1]),) * 2
+        for name, (lo, hi) in leaves_of(t).items():
+            if ctx.rng.random() < 0.3:
+                c = pick_in(ctx.rng, lo, hi); A[name] = (c, c)
+        ctx.tags["negated-model-assumed-about-a-child-by-id"] += 1
+        do_case(ctx, {"ast": a, "A": {k: list(v) for k, v in A.items()}})
+
+
 def run(ctx):
+    negated_models_stream(ctx)
     n_models = (150 if ctx.quick else 800) * (3 if ctx.search else 1)
     for _ in range(n_models):
         a, o, t = gen_valid(ctx.rng, ctx.quick, prefix_p=0.2, empty_p=0.04)
+        if ctx.rng.random() < 0.15:
+            # the model is the OUTPUT of another operation (assume / reduce / negate / Not / Imply / a JSON, base64, pickle or
+            # deepcopy round trip, one or two of them) applied to a generated valid model
+            a, o, t = gen_derived(ctx.rng, ctx.quick); ctx.tags["derived-model-stream"] += 1
         if ctx.rng.random() < 0.12:
             a, o, t = gen_valid_signed_sum(ctx.rng)     # explicit signs against thresholds of either sign, leaves around zero
         elif ctx.rng.random() < 0.12:
